@@ -80,6 +80,10 @@ def gen_cases(ctx):
         for _ in range(cnt):
             qs = rng.sample(range(n), rng.randrange(0, min(n, 4) + 1))
             mk("measure", n, entangled(rng, n, rng.choice(["random", "sparse", "unnormalised"])), rng.choice(["C", "X", "Y", rng.choice(us)]), qs, draw=float2bits(rng.choice(grid)))
+    # a register beyond the parallel-path and 1024-amplitude sizes, measuring the high-index qubit 10 (the model is quadratic
+    # in the vector length inside Coq, so only a few such cases)
+    for qs, b in (([10], "C"), ([0, 10], "C"), ([10, 3], "X")) + ((([10, 9, 1], "Y"),) if ctx.thorough() else ()):
+        mk("measure", 11, entangled(rng, 11, "random"), b, qs, draw=float2bits(rng.choice(grid[1:-1])))
     # accepted custom matrices whose adjoint Unitary2::new would reject (searched on the real acceptance test)
     found = run_harness([{"op": "measure", "mode": "search_u", "n": 1, "v": entangled(rng, 1, "random"), "basis": "C", "qs": [], "seed": ctx.seed * 7919 + k} for k in range(3)])
     ctx.cov["custom_unitary_search"] = [{"tries": f.get("tries"), "accepted_by_Unitary2_new": f.get("accepted"), "found_adjoint_rejected": bool(f.get("u"))} for f in found]
